@@ -5,7 +5,7 @@ PID=$1; M=$2; shift 2; CHECKS=${@:-$PID}
 WT=/tmp/seed_$PID; SRC=$WT/_seed/$M; DST=/verif/seeded/$PID-$M
 mkdir -p $DST
 [ -d $SRC ] && { cp -r $SRC/. $DST/ || exit 2; }   # already collected seeds are taken from /verif/seeded
-cd $WT && git checkout -q -- . && git apply $DST/patch.diff || { echo "patch does not apply"; exit 2; }
+cd $WT && git checkout -q -- . && { git apply $DST/patch.diff 2>/dev/null || git apply -C1 $DST/patch.diff; } || { echo "patch does not apply"; exit 2; }
 {
   echo "== build"; cmake --build _build -j8 2>&1 | tail -1
   echo "== ctest"; ctest --test-dir _build -j8 2>&1 | tail -3
